@@ -112,6 +112,9 @@ def strategy(tier):
                                    'room': st.integers(0, 2)})
     return st.fixed_dictionaries({
         'aio': st.booleans(),
+        # (msgpack: every packet is a byte string, which engine.io frames
+        # differently per transport)
+        'serializer': st.sampled_from(['default', 'default', 'msgpack']),
         'ntrans': st.integers(2, 6),
         'always_connect': st.booleans(),
         # how each transport frames what it sends (None: not emulated)
@@ -172,6 +175,7 @@ class Model:
 
 def check_case(case):
     w = World(aio=case['aio'], namespaces=NSS,
+              serializer=case.get('serializer', 'default'),
               always_connect=case.get('always_connect', False))
     try:
         return _run(case, w)
